@@ -64,7 +64,7 @@ func scenarios(tier string) []engine.Scenario {
 			name := fmt.Sprintf("known-class/%s/bgv-%s", classDeclaredEven, mode)
 			scs = append(scs, engine.Scenario{Name: name, Bound: 0, Fn: func(c *engine.Chooser) { bgvLeaf(c, name, cfg) }})
 		}
-		add(classBGVLazy, []shape{mkShape("d4/dense", 4, 0x1f), mkShape("d5/dense", 5, 0x3f), mkShape("d7/odd", 7, 0xaa)}, []int{kPolyLazy})
+		add(classLazy, []shape{mkShape("d4/dense", 4, 0x1f), mkShape("d5/dense", 5, 0x3f), mkShape("d7/odd", 7, 0xaa)}, []int{kPolyLazy})
 	}
 	scs = append(scs, ckksScenarios(tier, shapes, bound)...)
 	scs = append(scs, bignumScenarios(tier)...)
@@ -107,5 +107,10 @@ func expect(tier string) []string {
 		e = append(e, "entry=bgv/"+n)
 	}
 	e = append(e, expectCKKS(tier)...)
+	for _, n := range opNames {
+		e = append(e, "composite="+n)
+	}
+	e = append(e, "composite=inverse.GoldschmidtDivisionNew", "composite=doc-examples", "composite-bootstrapped=yes", "composite-bootstrapped=no",
+		"bignum=Evaluate/monomial", "bignum=Evaluate/chebyshev[-3,5]", "bignum=ChangeOfBasis", "bignum=Depth", "bignum=Factorize/monomial", "bignum=Factorize/chebyshev", "bignum=ChebyshevApproximation")
 	return e
 }
